@@ -263,7 +263,9 @@ impl HandleRequest for EMAppend {
             .map(|(event_id, timestamp, stream_id)| {
                 let version = stream_current_version.get_mut(&stream_id).unwrap();
                 let stream_version = *version;
-                *version -= 1;
+                // The first event of a stream that starts at version 0 leaves nothing to
+                // subtract from.
+                *version = version.saturating_sub(1);
                 EventInfo {
                     event_id,
                     stream_id,
